@@ -57,6 +57,7 @@ type DB struct {
 	journalFd       storage.FileDesc
 	frozenJournalFd storage.FileDesc
 	frozenSeq       uint64
+	journalFailed   bool // the last write to the current journal failed; need write lock
 
 	// Snapshot.
 	snapsMu   sync.Mutex
